@@ -387,6 +387,7 @@ int main()
 		default: break;
 		}
 		puts(out.c_str());
+		fflush(stdout);   // one line per case must reach the pipe before a later case can crash
 	}
 	return 0;
 }
